@@ -435,6 +435,17 @@ func parseContractFile(rel, src string) (*pkgSpec, error) {
 						cs.Args = append(cs.Args, [2]string{n, t})
 					}
 					cs.Clause = &Clause{Text: strings.TrimSpace(r3[i+len(" requires "):]), Line: ln, Props: clauseProps}
+				} else if w2 == "vars" {
+					// call <callee name> vars <local T, ...> requires <expr> (a callee without arguments)
+					i := strings.Index(r3, " requires ")
+					if i < 0 {
+						return nil, fmt.Errorf("line %d: call <name> vars <decls> requires <expr>", ln)
+					}
+					for _, d := range splitTop(r3[:i], ',') {
+						n, t := splitWord(strings.TrimSpace(d))
+						cs.Vars = append(cs.Vars, [2]string{n, t})
+					}
+					cs.Clause = &Clause{Text: strings.TrimSpace(r3[i+len(" requires "):]), Line: ln, Props: clauseProps}
 				} else if w2 == "requires" {
 					cs.Clause = &Clause{Text: r3, Line: ln, Props: clauseProps}
 				} else {
